@@ -155,7 +155,10 @@ def run(ctx) -> None:
             match = [k for k, exp in expected.items() if parts & exp]
             if not match:
                 continue          # a list about other parts: its variable stays a free atom of the guard's condition
-            ctx.require(len(match) == 1, f"is_valid_week_pattern: list {sorted(parts)} mixes part groups")
+            # a list that overlaps two groups is judged against the one it mostly agrees with (the stray part is the finding)
+            match.sort(key=lambda k_: (-len(parts & expected[k_]), k_))
+            ctx.require(len(match) == 1 or len(parts & expected[match[0]]) > len(parts & expected[match[1]]),
+                        f"is_valid_week_pattern: list {sorted(parts)} mixes part groups evenly")
             k = match[0]
             found[n.targets[0].id] = k
             ctx.check("R1", parts == expected[k], f"guard list for {sorted(groups[k])} == {sorted(expected[k])}",
